@@ -77,6 +77,8 @@ def generate(tape, tier="quick"):
                 i["units"] = None
                 if tape.chance(1, 3):        # rule takes only the grid; units and time are given as values
                     i["rule_units"] = tape.choice(["m", "km"])
+                elif tape.chance(1, 3):      # rule takes time and units as selected fields; the grid is given as a value
+                    i["rule_form"] = "fields"
             elif m == "connect":
                 i["info"] = "connect"
         for o in c["outputs"]:
@@ -85,6 +87,8 @@ def generate(tape, tier="quick"):
                 o["info"] = ["from_input", tape.choice(c["inputs"])["name"]]
                 if tape.chance(1, 3):
                     o["rule_units"] = tape.choice(["m", "km"])
+                elif tape.chance(1, 3):
+                    o["rule_form"] = "fields"
             elif m == "connect":
                 o["info"] = "connect"
             if any(i["pull"] for i in c["inputs"]) and tape.chance(1, 3):
@@ -96,6 +100,7 @@ def generate(tape, tier="quick"):
                 o["okind"] = "callback"
                 o["info"] = "known"
                 o.pop("rule_units", None)
+                o.pop("rule_form", None)
     # fan-out at an adapter: links of the same output share one Scale instance
     by_src = {}
     for k, ln in enumerate(links):
@@ -108,6 +113,9 @@ def generate(tape, tier="quick"):
     for ln in links:
         if comps[ln["src"][0]]["outputs"][ln["src"][1]].get("okind") in ("static", "callback"):
             ln.pop("chain", None)        # time adapters need timed publications / notifications
+    for c in comps:
+        if tape.chance(1, 4):
+            c["rules_api"] = "add"
     driver = "real" if tape.chance(1, 2) else "sched"
     sc = {"engine": "E2", "components": comps, "links": links, "driver": driver,
           "listing": tape.shuffle(list(range(n))), "link_order": tape.shuffle(list(range(len(links)))),
